@@ -8,7 +8,6 @@
 use std::fmt::Display;
 
 use anyhow::Result;
-use regex::Captures;
 use regex::Regex;
 use regex::bytes::Regex as ByteRegex;
 
@@ -61,8 +60,6 @@ impl RuleMaker for RegexRule {
 lazy_static! {
     static ref VALID_REPETITION_QUANTIFIER: Regex = Regex::new("\\{([0-9]+(?:,[0-9]+)?)\\}")
         .expect("valid repetition quantifier regex must compile");
-    static ref MOVED_REPETITION_QUANTIFIER: Regex =
-        Regex::new("<<<<(.+?)>>>>").expect("moved repetition quantifier regex must compile");
 }
 
 /// Compensate for misuse of repetition quantifiers, where curly brackets are used
@@ -80,35 +77,37 @@ lazy_static! {
 /// - Python does it so, existing cram tests may have it
 /// - Usability (?)
 pub(super) fn escape_misused_repetition_quantifier(expression: &str) -> String {
-    // pass 1: replace all valid repetition quantifiers temporarily
-    let expression = VALID_REPETITION_QUANTIFIER.replace_all(expression, |captures: &Captures| {
-        format!("<<<<{}>>>>", captures.get(1).unwrap().as_str())
-    });
+    // valid repetition quantifiers stay as they are, wherever they stand
+    let quantifiers = VALID_REPETITION_QUANTIFIER
+        .find_iter(expression)
+        .map(|found| (found.start(), found.end()))
+        .collect::<Vec<_>>();
+    let quantifier_at = |index: usize| quantifiers.iter().find(|(start, _)| *start == index);
 
-    // pass 2: escape all other curly expressions
-    let mut chars = expression.chars();
-    let mut expression = String::new();
-    while let Some(ch) = chars.next() {
+    // all other curly brackets, which are not escaped already, are escaped
+    let mut chars = expression.char_indices().peekable();
+    let mut expression_escaped = String::new();
+    while let Some((index, ch)) = chars.next() {
+        if let Some((_, end)) = quantifier_at(index) {
+            expression_escaped.push_str(&expression[index..*end]);
+            while chars.next_if(|(next, _)| next < end).is_some() {}
+            continue;
+        }
         match ch {
             '\\' => {
-                expression.push(ch);
-                if let Some(ch2) = chars.next() {
-                    expression.push(ch2);
+                expression_escaped.push(ch);
+                if let Some((_, ch2)) = chars.next_if(|(next, _)| quantifier_at(*next).is_none()) {
+                    expression_escaped.push(ch2);
                 }
             }
             '{' | '}' => {
-                expression.push('\\');
-                expression.push(ch);
+                expression_escaped.push('\\');
+                expression_escaped.push(ch);
             }
-            _ => expression.push(ch),
+            _ => expression_escaped.push(ch),
         }
     }
-
-    // pass 3: restore valid repetitions
-    let expression = MOVED_REPETITION_QUANTIFIER.replace_all(&expression, |captures: &Captures| {
-        ["{", captures.get(1).unwrap().as_str(), "}"].join("")
-    });
-    expression.to_string()
+    expression_escaped
 }
 
 /// Compensate for misuse of character classes, where unescaped square brackets
